@@ -413,10 +413,16 @@ func MasterMain(c *Check, ctx *Ctx, verifDir string, unitFilter string) int {
 					break
 				}
 				if err != nil {
-					cmd.Wait()
+					werr := cmd.Wait()
 					es := errBuf.String()
 					mu.Lock()
-					if strings.Contains(es, "verif: memory guard") {
+					if werr != nil && strings.Contains(werr.Error(), "signal: killed") && strings.TrimSpace(es) == "" {
+						// killed from outside without a word (the kernel's out-of-memory killer when several runs share
+						// the machine): no verdict about the property, the unit is reported as not covered
+						results[idx] = &Result{Unit: units[idx].Name, Exhaustive: false, Caps: []string{units[idx].Name + ": the worker process was killed by the system (out of memory?); unit not covered"}}
+						crashed = true
+						anyCrash = true
+					} else if strings.Contains(es, "verif: memory guard") {
 						results[idx] = &Result{Unit: units[idx].Name, Exhaustive: false, Caps: []string{units[idx].Name + ": stopped by the memory guard (" + strings.TrimSpace(clip(es, 200)) + ")"}}
 						crashed = true
 						anyCrash = true
